@@ -422,7 +422,9 @@ def brRestsOk (o : StepOut) : Bool := brStepOk o.br o.wl false
 /-- **`br_waits_only_for_wakeable`** — for every BatchRelease and workload state: a reconcile that does not wake its own
     reconciler — no requeue, no error (rate-limited retry), no event of its own making that passes the predicate / the
     workload handler (a status-only write of a live object does not) — leaves the release in an explicitly listed waiting class
-    (Completed; batch Ready and partitioned; workload not yet observed by its controller; rollback signal awaited), or gone. -/
+    (Completed; batch Ready and partitioned; workload not yet observed by its controller; rollback signal awaited; superseded — the
+    workload's pod template is no longer the recorded revision: the executor stops on every round until its owner deletes or rewrites
+    the BatchRelease, a deletion / spec event, or the template changes again, a workload event), or gone. -/
 theorem br_waits_only_for_wakeable (br : BR) (wl : Option Workload) (o : StepOut) (h : reconcile br wl = .val o)
     (hq : (brWakes br wl o).br = false) : brRestsOk o = true := by
   unfold brWakes wakesOf at hq
@@ -501,7 +503,9 @@ theorem br_waits_only_for_wakeable (br : BR) (wl : Option Workload) (o : StepOut
           · rfl
           · split
             · rfl
-            · rw [if_pos ⟨hph, hrd, hpart⟩]; rfl
+            · split
+              · rfl
+              · rw [if_pos ⟨hph, hrd, hpart⟩]; rfl
         · -- Finalizing -> Completed: a status write; not woken means the object is not in deletion
           unfold brAwaits
           simp only
